@@ -274,6 +274,10 @@ def edit_copy_check_source(rec, scene, src, new, where, cls):
                 new.vertices = verts + 5.0
             except Exception:  # noqa: BLE001
                 pass
+        if type(new).__name__ == "Drillhole" and any(getattr(c, "name", None) == "DEPTH" for c in new.children):
+            # more logging on the copy: new depths next to the copied ones
+            new.add_data({"late log": {"depth": np.array([4.0, 9.0]), "values": np.array([40.0, 90.0])}})
+            rec.see("depth-logs-added-to-copies")
         kids = [c for c in (getattr(new, "children", None) or []) if not snap._is_pg(c) and hasattr(c, "values") and c.allow_delete]
         if kids:
             new.workspace.remove_entity(kids[0])
@@ -474,6 +478,14 @@ def run_object(case, rec, rng, scene):
         src = gen.object_class(cname).create(scene.ws, parent=scene.home, name="source")
         rec.see("classes-built-empty")
     made = populate(src, rng, rec)
+    if cname == "Drillhole":
+        # what a logged hole carries: its own end of hole (deeper than the last survey), cost, status, a depth log and intervals
+        src.end_of_hole = float(np.asarray(src.surveys)[-1, 0]) + 25.0
+        src.cost = 1234.5
+        src.planning = "Planned"
+        src.add_data({"gamma": {"depth": np.array([2.0, 6.0, 11.0]), "values": np.array([0.5, 0.25, 0.125])}})
+        src.add_data({"lith": {"from-to": np.array([[1.0, 3.0], [3.0, 8.0]]), "values": np.array([7.0, 9.0])}})
+        rec.see("logged-drillholes")
     where = f"copy:{case['target']}:{'children' if case['children'] else 'bare'}{':clear_cache' if case.get('clear_cache') else ''}"
     # the copy is judged against a source that was stored, closed and re-loaded half of the time
     if case.get("rep", 0) % 2 == 1 or rng.random() < 0.4:
@@ -599,7 +611,7 @@ def hole_store(group):
     for h in group.children:
         if not hasattr(h, "surveys"):
             continue
-        rec_ = {"collar": canon(h.collar), "surveys": canon(h.surveys), "data": {}}
+        rec_ = {"collar": canon(h.collar), "surveys": canon(h.surveys), "end_of_hole": canon(h.end_of_hole), "cost": canon(h.cost), "data": {}}
         for name in sorted(h.get_data_list()):
             dd = h.get_data(name)
             rec_["data"][name] = canon(dd[0].values) if dd else None
@@ -618,6 +630,8 @@ def run_drill(case, rec, rng, scene):
     lazy = mode == 0  # do not read the source before the copy: its first read comes after the copy was edited
     for i in range(rng.randint(2, 4)):
         h = Drillhole.create(scene.ws, parent=grp, name=f"h{i}", collar=[float(i), 1.0, 10.0], surveys=np.array([[0.0, 10.0 * i, -90.0], [20.0, 10.0, -80.0], [40.0, 20.0, -70.0]]))
+        h.end_of_hole = 55.0 + i  # deeper than the last survey station
+        h.cost = 100.0 * (i + 1)
         n = rng.randint(2, 5)
         for j in range(rng.randint(1, 3)):
             vals = (np.arange(n, dtype=float) + 10 * i + j).astype("float32").astype(float)
